@@ -45,6 +45,10 @@ func Run(tier string, seed uint64, modelPath, repo string, out *res.Result) erro
 				if tb, ok := d.(*bo.TextBox); ok {
 					ts = append(ts, fmt.Sprintf("%q@%v,%v", tb.TextS(), tb.PositionX, tb.PositionY))
 				}
+				if bb, ok := d.(*bo.BlockBox); ok {
+					f := bb.Box()
+					ts = append(ts, fmt.Sprintf("block[y=%v h=%v mt=%v mb=%v pb=%v bb=%v]", f.PositionY, f.Height, f.MarginTop, f.MarginBottom, f.PaddingBottom, f.BorderBottomWidth))
+				}
 			}
 			fmt.Fprintln(os.Stderr, " page", i, ts)
 		}
